@@ -369,31 +369,57 @@ def run(ctx):
              "writes str(line) followed by a single LF; Gfa(str) splits on LF "
              "and Gfa(list) takes the elements as they are", floor=4)
     f_rf = ctx.anchor("Gfa.read_file", gfacls.find_method("read_file"))
-    ctx.instance(R)
-    calls = [n for n in ast.walk(f_rf.node)
-             if isinstance(n, ast.Call) and isinstance(n.func, ast.Attribute)
-             and n.func.attr == "add_line"]
-    ok = False
-    msg = "no add_line call on the lines of the file"
-    for c in calls:
-        if len(c.args) == 1:
-            a = c.args[0]
-            if isinstance(a, ast.Call) and isinstance(a.func, ast.Attribute) \
-                    and a.func.attr == "rstrip":
-                if len(a.args) == 1 and isinstance(a.args[0], ast.Constant) \
-                        and isinstance(a.args[0].value, str) and \
-                        set(a.args[0].value) == {"\r", "\n"}:
-                    ok = True
-                else:
-                    msg = "the line is stripped with %s; only CR and LF may " \
-                        "be removed (trailing blanks belong to the last " \
-                        "field)" % unparse(a)
-            else:
-                msg = "the line is passed to add_line as %s; the line " \
-                    "terminator must be stripped" % unparse(a)
-    ctx.oblige(ok)
-    if not ok:
-        ctx.violation(R, f_rf.short, "strip", msg)
+    # interpreted on a file whose lines end with LF, CR LF, nothing (last
+    # line), and whose fields end with blanks / other whitespace: exactly the
+    # line terminator goes, everything else reaches add_line
+    from .c13 import GfaHooks as _GH
+
+    class FakeFile:
+        def __init__(self, lines):
+            self.lines = lines
+
+        def __iter__(self):
+            return iter(self.lines)
+
+    file_lines = ["H\tVN:Z:1.0\n", "S\ta\t*\tzz:Z:trailing blanks  \r\n",
+                  "S\tb\t*\tzz:Z:tab\t\n", "\n", "S\tc\t*\x0b\x0c",
+                  ]
+    want_lines = ["H\tVN:Z:1.0", "S\ta\t*\tzz:Z:trailing blanks  ",
+                  "S\tb\t*\tzz:Z:tab\t", "", "S\tc\t*\x0b\x0c"]
+
+    class ReadHooks(_GH):
+        def function(self, ev, node, args, kwargs):
+            if isinstance(node.func, ast.Name) and node.func.id == "open":
+                ev.events.append(("open",) + tuple(args))
+                return FakeFile(list(file_lines))
+            return super().function(ev, node, args, kwargs)
+
+        def method(self, ev, base, name, args, kwargs, node):
+            if isinstance(base, Abs) and base.label == "gfa" and name in (
+                    "add_line", "process_line_queue", "validate",
+                    "_progress_log", "_progress_log_init",
+                    "_progress_log_end"):
+                ev.events.append((name,) + tuple(args))
+                return None
+            return super().method(ev, base, name, args, kwargs, node)
+    for progress in (None, True):
+        ctx.instance(R)
+        g = Abs(gfacls, label="gfa", _progress=progress, _line_queue=[],
+                _vlevel=0, _version=None, _version_guess="gfa2")
+        try:
+            out = eval_function(repo, f_rf, [g, "f.gfa"],
+                                hooks=ReadHooks(repo))
+        except Unsupported as e:
+            raise AnalysisError(str(e))
+        got = [e[1] for e in out[2] if e[0] == "add_line"]
+        ok = out[0] == "return" and got == want_lines
+        ctx.oblige(ok)
+        if not ok:
+            ctx.violation(R, f_rf.short, "strip (progress=%s)" % progress,
+                          "outcome %r; add_line receives %r, expected %r: "
+                          "only CR and LF at the end of a line are removed "
+                          "(trailing blanks belong to the last field)" % (
+                              out[0:2], got, want_lines))
     f_tf = ctx.anchor("Gfa.to_file", gfacls.find_method("to_file"))
     ctx.instance(R)
     writes = [n for n in ast.walk(f_tf.node)
